@@ -140,6 +140,25 @@ func ensureBuild(verifDir, repoDir string) (*buildInfo, error) {
 	if err != nil {
 		return nil, fmt.Errorf("instrumenting: %v", err)
 	}
+	// 1b. the simulator owns the scheduler. Inside a synctest bubble the Go
+	// runtime flips coins of its own: it orders timers that fire at the same
+	// fake instant at random (on purpose), polls the ready cases of a select in
+	// random order, starts map iterations at random offsets, and its monitor
+	// thread takes a goroutine off the processor once 10 ms of wall-clock time
+	// have gone by (which depends on the load of the machine). The worker is
+	// built with a runtime in which, for goroutines of a bubble, those coins
+	// come from a PRNG that belongs to the bubble (so one run = one sequence),
+	// and in which the wall-clock time slice is "never"; garbage collection is
+	// off in those workers (see runProc). Nothing outside the worker binary is
+	// built this way.
+	rov, err := patchRuntime(filepath.Join(tmp, "ov"))
+	if err != nil {
+		return nil, fmt.Errorf("runtime overlay: %v", err)
+	}
+	for k, v := range rov {
+		ov[k] = v
+		reps = append(reps, instr.Report{File: "GOROOT/src/runtime/" + filepath.Base(k), Funcs: []string{"kgsim runtime seam"}})
+	}
 	// 2. instrumented scratch copy of the maxinflight dependency
 	cmd := exec.Command(goBin, "list", "-m", "-f", "{{.Dir}}", meta.GolibModule)
 	cmd.Dir = harness
@@ -268,4 +287,79 @@ func pruneBuilds(dir string, keep int, current string) {
 		}
 		os.RemoveAll(filepath.Join(dir, x.name))
 	}
+}
+
+// runtimePatches: file of the toolchain's runtime package -> textual replacements.
+var runtimePatches = map[string][][2]string{
+	"proc.go": {
+		{"const forcePreemptNS = 10 * 1000 * 1000 // 10ms", "const forcePreemptNS = 1 << 62 // kgsim: never (see cmd/kgcheck/build.go)"},
+	},
+	"time.go": {
+		{"\t\t\tt.rand = cheaprand()\n", "\t\t\tt.rand = kgBubbleRand32(getg().bubble) // kgsim: the bubble's own coin\n"},
+	},
+	"select.go": {
+		{"\t\tj := cheaprandn(uint32(norder + 1))\n", "\t\tj := kgSelectRandn(uint32(norder + 1)) // kgsim: the bubble's own coin\n"},
+	},
+	"rand.go": {
+		{"func maps_rand() uint64 {\n\treturn rand()\n}", "func maps_rand() uint64 {\n\tif gp := getg(); gp != nil && gp.bubble != nil {\n\t\treturn kgBubbleRand64(gp.bubble) // kgsim: the bubble's own coin\n\t}\n\treturn rand()\n}"},
+	},
+	"synctest.go": {
+		{"\tactive  int // other sources of activity\n}", "\tactive  int // other sources of activity\n\n\tkgrand uint64 // kgsim: state of the bubble's own PRNG\n}\n\n" + kgRuntimeFuncs},
+	},
+}
+
+const kgRuntimeFuncs = `// kgBubbleRand64 is the PRNG of a bubble (splitmix64). Goroutines of a bubble
+// run one at a time in the worker (GOMAXPROCS=1), so the sequence of calls is a
+// function of the program.
+func kgBubbleRand64(b *synctestBubble) uint64 {
+	if b == nil {
+		return uint64(cheaprand())<<32 | uint64(cheaprand())
+	}
+	b.kgrand += 0x9e3779b97f4a7c15
+	z := b.kgrand
+	z = (z ^ (z >> 30)) * 0xbf58476d1ce4e5b9
+	z = (z ^ (z >> 27)) * 0x94d049bb133111eb
+	return z ^ (z >> 31)
+}
+
+func kgBubbleRand32(b *synctestBubble) uint32 { return uint32(kgBubbleRand64(b) >> 32) }
+
+func kgSelectRandn(n uint32) uint32 {
+	if gp := getg(); gp != nil && gp.bubble != nil {
+		return uint32((uint64(kgBubbleRand32(gp.bubble)) * uint64(n)) >> 32)
+	}
+	return cheaprandn(n)
+}`
+
+// patchRuntime writes patched copies of the toolchain's runtime files into dir
+// and returns the overlay entries (original path -> patched copy).
+func patchRuntime(dir string) (map[string]string, error) {
+	cmd := exec.Command(goBin, "env", "GOROOT")
+	cmd.Env = goEnv()
+	out, err := cmd.Output()
+	if err != nil {
+		return nil, err
+	}
+	rt := filepath.Join(strings.TrimSpace(string(out)), "src", "runtime")
+	ov := map[string]string{}
+	for name, reps := range runtimePatches {
+		p := filepath.Join(rt, name)
+		b, err := os.ReadFile(p)
+		if err != nil {
+			return nil, err
+		}
+		src := string(b)
+		for _, r := range reps {
+			if strings.Count(src, r[0]) != 1 {
+				return nil, fmt.Errorf("%s: expected exactly one occurrence of %q", p, r[0])
+			}
+			src = strings.Replace(src, r[0], r[1], 1)
+		}
+		dst := filepath.Join(dir, "runtime_"+name)
+		if err := os.WriteFile(dst, []byte(src), 0o644); err != nil {
+			return nil, err
+		}
+		ov[p] = dst
+	}
+	return ov, nil
 }
